@@ -10,7 +10,7 @@ CONFIG = dict(
                                "requests in (16 MiB, 2^62) are outside the property's quantifier and are not generated"],
     assumptions=["64-bit usize", "stream = finite byte string then EOF (read_exact semantics); fragmentation does not matter to read_exact"],
     manifest=dict(
-        text="Lean 4 theorems with explicit panic/abort outcomes: with the checked header sum and fallible reservation that the extractor reads off the current source, Header::decode, the four slice parsers and the four stream readers return Ok/Err for every byte string, every declared size and both overflow-check profiles; a successful parse implies magic, length = 48+q+b, frame inside the buffer and query/body equal to the input slices; exact variants reject trailing bytes; truncation anywhere gives an I/O error. Witness examples show the unchecked/infallible forms violate it. Tied by extraction + differential run over hostile inputs (boundary lattice of the three 64-bit lengths, truncations at every position) with an independent parser oracle; a process death is attributed to its input.",
+        text="Lean 4 theorems with explicit panic/abort outcomes: with the checked header sum and fallible reservation that the extractor reads off the current source, Header::decode, the four slice parsers and the four stream readers return Ok/Err for every byte string, every declared size and both overflow-check profiles; a successful parse implies magic, length = 48+q+b, frame inside the buffer and query/body equal to the input slices; exact variants reject trailing bytes; truncation anywhere gives an I/O error. Witness examples show the unchecked/infallible forms violate it. Tied by extraction + differential run over hostile inputs (boundary lattice of the three 64-bit lengths, truncations at every position) with an independent parser oracle; a process death is attributed to its input. The same hostile inputs are also sent to the real Server, AsyncServer and WebSocketServer and used as replies to calls of the real Client, AsyncClient and WebSocketClient: no panic anywhere in the process (global panic hook), the endpoint keeps serving, the call returns.",
         note="Lean kernel; allocator behaviour for >= 2^62 assumed (std try_reserve contract, exercised); sizes in (16 MiB, 2^62) outside the property; 64-bit usize.",
         technique="Lean 4 proof (totality + soundness of parsers) + regenerated sum/alloc facts + differential correspondence"),
 )
